@@ -41,6 +41,8 @@ def features_for(i):
 def run_shard(ctx):
   pipeline.mods()
   counters = hooks.install_counters(['Combines', 'UDF'])
+  from vf.mon import udf_contracts
+  udf_state = udf_contracts.install()
   allowed = semantic.open_switches('C02')
   n = ctx.params['n_programs']
   for i in range(n):
@@ -50,6 +52,7 @@ def run_shard(ctx):
     run_case(ctx, case_seed, i, allowed)
   for k, v in counters.items():
     ctx.count(k, v)
+  ctx.count('udf_contract_evaluations', udf_state['evaluations'])
 
 
 def run_case(ctx, case_seed, i, allowed):
@@ -63,7 +66,7 @@ def finalize(agg, tier):
   out = []
   c = agg['counters']
   for k in ('programs', 'predicates', 'ok', 'feature_combine', 'feature_nested_combine', 'feature_negation', 'feature_agg_pred',
-            'feature_multi_body_agg', 'DisambiguateCombineVariables', 'ArgMin.step'):
+            'feature_multi_body_agg', 'DisambiguateCombineVariables', 'ArgMin.step', 'udf_contract_evaluations'):
     if not c.get(k):
       out.append('mandatory counter %s is zero' % k)
   return out
